@@ -320,6 +320,7 @@ aiff_open (SF_PRIVATE *psf)
 				break ;
 
 		case SF_FORMAT_DWVW_12 :
+				error = dwvw_init (psf, 12) ;
 				if (psf->sf.frames > comm_fmt.numSampleFrames)
 					psf->sf.frames = comm_fmt.numSampleFrames ;
 				break ;
